@@ -21,7 +21,7 @@ TECHNIQUE = "Lean 4 proof (invariants by induction over operations, relational s
 
 
 def generate(rng, tier):
-    n, steps = {"quick": (40, 30), "thorough": (600, 60), "search": (150, 40)}.get(tier, (40, 30))
+    n, steps = {"quick": (100, 30), "thorough": (600, 60), "search": (150, 40)}.get(tier, (40, 30))
     cases = []
     for i in range(n):
         kind = "sort" if i % 3 else "bsort"
